@@ -9,6 +9,7 @@ import verde as vd
 from moment import PolyGridder
 
 ID = "C05"
+TRANSLATED = "gridder"     # Gen/Gridder.lean (BaseGridder.scatter / profile and their helpers, statement by statement) is regenerated from /repo and bridged to the model in Props/C05.lean
 FILES = ["verde/base/base_classes.py", "verde/utils.py", "verde/coordinates.py", "verde/synthetic.py"]
 RULE = ("corpus + seeded calls of BaseGridder.grid / profile / scatter on an asymmetric analytic gridder (1..4 components, a + b e + c n + d e n with "
         "dyadic coefficients) over regions (given or defaulting to region_), shapes/spacings (both adjust modes, both registrations), extra_coords, explicit "
